@@ -736,6 +736,13 @@ def s_slice(st, s, lo, hi, g):
     def clamp(v, default):
         if v is None or (isinstance(v, C) and v.v is None):
             return default
+        if isinstance(v, U):
+            # a bound that is an int on some alternatives and None on others (None = the default bound, as in Python)
+            alts_ = list(v.alts)
+            out = clamp(alts_[-1][1], default)
+            for g_, b_ in reversed(alts_[:-1]):
+                out = z3.If(g_, clamp(b_, default), out)
+            return out
         it = int_of(v)
         if it is None:
             raise OutOfSubset("slice bound of kind %s" % kind(v))
